@@ -160,7 +160,11 @@ def run_case(R, level, op, db, args, label="gen"):
             if op == "get":
                 res = rig.outcome(lambda: drive(c.get(OID(oids[0]))))
             else:
-                res = rig.outcome(lambda: drive(c.multiget([OID(o) for o in oids])))
+                arg = [OID(o) for o in oids]
+                res = rig.outcome(lambda: drive(c.multiget(arg)))
+                if [oid_t(o) for o in arg] != oids:
+                    viol("multiget changed the caller's list: %r -> %r" % (oids[:4], [oid_t(o) for o in arg][:6]))
+                    return
             wire, _ = wire_response(w)
             R.case(fp, wire is not None, sample=case if R.evaluations % 701 == 0 else None)
             if op == "get" and missing[0]:
@@ -186,6 +190,14 @@ def run_case(R, level, op, db, args, label="gen"):
                 viol("result %r != bindings on the wire %r" % (got[:4], wire[:4]))
                 return
             R.mon["ok_multiget"] += 1
+            if op == "multiget":
+                # again with the same list object: same answer
+                w.seam.reset(budget=6)
+                res2 = rig.outcome(lambda: drive(c.multiget(arg)))
+                if res2[0] != "ok" or [to_tuple(v) for v in res2[1]] != got:
+                    viol("a second multiget with the same list object gave %r (first: %r)" % (str(res2[1])[:200], got[:4]))
+                    return
+                R.mon["repeated_with_same_argument_objects"] += 1
             return
 
         if op in ("getnext", "multigetnext"):
@@ -195,7 +207,11 @@ def run_case(R, level, op, db, args, label="gen"):
             if op == "getnext":
                 res = rig.outcome(lambda: drive(c.getnext(OID(oids[0]))))
             else:
-                res = rig.outcome(lambda: drive(c.multigetnext([OID(o) for o in oids])))
+                arg = [OID(o) for o in oids]
+                res = rig.outcome(lambda: drive(c.multigetnext(arg)))
+                if [oid_t(o) for o in arg] != oids:
+                    viol("multigetnext changed the caller's list: %r -> %r" % (oids[:4], [oid_t(o) for o in arg][:6]))
+                    return
             wire, _ = wire_response(w)
             R.case(fp, wire is not None, sample=case if R.evaluations % 701 == 0 else None)
             p = next((i for i, s in enumerate(succ) if s is None), len(oids))
@@ -270,9 +286,14 @@ def run_case(R, level, op, db, args, label="gen"):
             reps = [tuple(o) for o in args["repeaters"]]
             m = args["maxrep"]
             fp = ("c04", op, level, len(scal), len(reps), m, tuple(successor(keys, o) is None for o in scal + reps))
-            res = rig.outcome(lambda: drive(c.bulkget([OID(o) for o in scal], [OID(o) for o in reps], max_list_size=m)))
+            # the caller's own list objects, passed again further down (a polling loop)
+            arg_s, arg_r = [OID(o) for o in scal], [OID(o) for o in reps]
+            res = rig.outcome(lambda: drive(c.bulkget(arg_s, arg_r, max_list_size=m)))
             wire, _ = wire_response(w)
             req = last_request(w)
+            if [oid_t(o) for o in arg_s] != scal or [oid_t(o) for o in arg_r] != reps:
+                viol("bulkget changed the caller's argument lists: scalars %r -> %r, repeaters %r -> %r" % (scal[:4], [oid_t(o) for o in arg_s][:6], reps[:4], [oid_t(o) for o in arg_r][:6]))
+                return
             R.case(fp, wire is not None, sample=case if R.evaluations % 701 == 0 else None)
             if res[0] != "ok":
                 viol("conformant agent, yet bulkget raised %r" % (res[1],))
@@ -330,6 +351,17 @@ def run_case(R, level, op, db, args, label="gen"):
             R.mon["ok_bulkget"] += 1
             if len(rep_wire) < m * len(reps):
                 R.mon["bulk_shorter_than_max_accepted"] += 1
+            # the same call again with the same argument objects: same request, same answer
+            w.seam.reset(budget=6)
+            res2 = rig.outcome(lambda: drive(c.bulkget(arg_s, arg_r, max_list_size=m)))
+            req2 = last_request(w)
+            def norm(b):
+                return ([(oid_t(k), to_tuple(v)) for k, v in b.scalars.items()], [(oid_t(k), to_tuple(v)) for k, v in b.listing.items()])
+
+            if res2[0] != "ok" or norm(res2[1]) != norm(br) or [tuple(o) for o, _ in req2["varbinds"]] != scal + reps or req2["error_status"] != n:
+                viol("a second bulkget with the same argument objects gave %r / request %r (first: %r)" % (str(res2[1])[:200], [tuple(o) for o, _ in req2["varbinds"]][:6], str(br)[:200]))
+                return
+            R.mon["repeated_with_same_argument_objects"] += 1
             return
 
         if op == "sequence":
@@ -397,7 +429,7 @@ def run_case(R, level, op, db, args, label="gen"):
             for pre in args.get("prelude", ()):
                 try:
                     if pre == "walk-warn":
-                        rig.drive_agen(c.walk(OID((1, 3, 6, 1, 2, 1)), errors="warn"), limit=200)
+                        rig.drive_agen(c.walk(OID((1, 3, 6, 1, 2, 1)), errors=rig.lenient()), limit=200)
                     elif pre == "walk":
                         rig.drive_agen(c.walk(OID((1, 3, 6, 1, 2, 1))), limit=200)
                     elif pre == "bulkwalk":
